@@ -321,7 +321,8 @@ def gen_case(rng, rig):
                 users.append(c)       # what the built-in back-ends return
     rights_w = [u for u in users if rng.random() < 0.7]
     precreate = [u for u in users if rng.random() < 0.35]
-    race = rng.choice(users) if users and rng.random() < 0.15 else None
+    cands = [u for u in rights_w if u not in precreate] or users       # where the gate would get as far as creating
+    race = rng.choice(cands) if cands and rng.random() < 0.4 else None
     handler = rng.choice(["na", "na", "na", "na_copy", "ok", "ok", "ok", "ok", "multi", "multi", "forbidden", "raise"])
     return dict(env=env, shape=shape, decode=decode, upper=upper, lower=lower, script=script, backend=backend, users=users,
                 rights_w=rights_w, precreate=precreate, handler=handler, race=race)
